@@ -194,7 +194,9 @@ theorem C08_reconstruct_in_place (slots : List (Nat × Cls)) (s : Store) (name :
     instance pointers changed, order changed, too many instances): every lookup returns `specObs` of the declaration
     CURRENTLY in force (`specLife`: the instance list of the last successful construction), never of an earlier one; a
     construction succeeds exactly when it has at most CELLO_MAX_INSTANCES instances and otherwise changes nothing; and the
-    invariant holds at the end relative to the declaration then in force. -/
+    invariant holds at the end relative to the declaration then in force.  (This theorem is about ONE type object whose
+    classes are given as values — pointer and name; class objects that are themselves re-constructed, deleted or replaced
+    during the history, several type objects, and casts are the subject of `C08_world_history`.) -/
 theorem C08_lookup_exact (D : String → Option Inst) (s : Store) (h : StoreOK layoutNow D slotsNow s) (ops : List LOp) :
     (runLife layoutNow slotsNow s ops).2 = specLife CelloGen.Disp.maxInstances s.trec.sentinel D ops ∧
     StoreOK layoutNow (declAfter CelloGen.Disp.maxInstances D ops) slotsNow (runLife layoutNow slotsNow s ops).1 :=
